@@ -517,7 +517,8 @@ def history_case(job, res, cfg):
                 clist("(%s, %s)" % (c_owner(a), c_owner(b)) for a, b, _ in sharing if not (a[0] == "O" and b[0] == "O")) if last else "[]"))
     # what the model has no cell for crosses as part of the repeat verdict: answers / values of the independent world,
     # objects shared with it (the process-wide statics are part of the module root M, i.e. of so_changed)
-    repeat_ok = not res["repeat_mismatch"] and not res["repeat_changed"] and not res["module_leak"] and not res.get("indep")
+    repeat_ok = (not res["repeat_mismatch"] and not res["repeat_changed"] and not res["module_leak"] and not res.get("indep")
+                 and not res.get("twin_mismatch"))
     return "{| c_cfg := %s; c_steps := %s; c_repeat_ok := %s; c_thread := None |}" % (
         c_cfg(cfg), clist(steps), cbool(repeat_ok))
 
@@ -685,7 +686,7 @@ def dirty(res):
     """the oracle's verdict on one history result (independent of the model)"""
     if "steps" not in res:
         return True
-    if res["repeat_mismatch"] or res["repeat_changed"] or res["module_leak"] or res.get("indep"):
+    if res["repeat_mismatch"] or res["repeat_changed"] or res["module_leak"] or res.get("indep") or res.get("twin_mismatch"):
         return True
     for st in res["steps"]:
         if st.get("changed"):
@@ -725,7 +726,8 @@ def summary_of(res):
             "value_sharing": sorted({(a, b) for s in res["steps"] for a, b, _ in s.get("sharing", []) if a[0] != "O" and b[0] != "O"}),
             "repeat_mismatch": res["repeat_mismatch"], "repeat_changed": res["repeat_changed"], "module_leak": res["module_leak"],
             "independent_world": res.get("indep", []),
-            "independent_world_build": res.get("statics_changed_while_building_independent_world", [])}
+            "independent_world_build": res.get("statics_changed_while_building_independent_world", []),
+            "answers_differ_from_the_run_without_the_independent_world": res.get("twin_mismatch", [])}
 
 
 # ------------------------------------------------------------------------------------------ shipped fixtures
@@ -870,6 +872,7 @@ def run(args):
         open_ids = [d for d in DEFECTS if not cfg[d]]
         return (open_ids == ["D17"] and "steps" in r and not any(s.get("changed") for s in r["steps"])
                 and not r["repeat_mismatch"] and not r["repeat_changed"] and not r["module_leak"] and not r.get("indep")
+                and not r.get("twin_mismatch")
                 and any(s["op"]["k"] in ("triplet", "plan") and (s["res"].get("refused") is True or (isinstance(s["res"].get("refused"), list) and any(s["res"]["refused"])))
                         for s in r["steps"] if not s.get("skipped")))
 
@@ -964,7 +967,8 @@ def run(args):
                                              "module_leak": res["module_leak"],
                                              "process_statics_changed": res.get("statics_changed", []),
                                              "independent_world": res.get("indep", []),
-                                             "independent_world_build": res.get("statics_changed_while_building_independent_world", [])}},
+                                             "independent_world_build": res.get("statics_changed_while_building_independent_world", []),
+                                             "answers_differ_from_the_run_without_the_independent_world": res.get("twin_mismatch", [])}},
                       "nontrivial": len(executed) >= 3 and n_state_ops >= 1,
                       "witness_of": job.get("witness") if (job.get("witness") and not cfg.get(job.get("witness"), True)) else None,
                       "klass": "D17" if has_ref else None, "_job": job, "_res": res})
@@ -1043,7 +1047,8 @@ def run(args):
                    "methods), of all domains, of ALL live states and of the independent world are compared (oracle), the independent world's "
                    "answers (exports, serialisations, applicability, a repeated transition) are re-asked and compared, the sharing graph of "
                    "mutable objects between roots is compared with the model's (no root may share with the independent world), every query "
-                   "is repeated at the end.  Threads: N=2-4 real threads on one shared domain (switch interval 1e-6) against "
+                   "is repeated at the end; and every history is ALSO run alone (TWIN run: statics restored, functools memo tables of the "
+                   "library emptied, no independent world before it) and must give the same answers call by call.  Threads: N=2-4 real threads on one shared domain (switch interval 1e-6) against "
                    "sequential runs; deterministic scheduler jobs (2-3 threads of 4-8 calls, logging proxies on the shared domain's containers): "
                    "all one-preemption schedules (per thread order, capped as reported) + seeded random schedules, results against solo runs, "
                    "shared read/write footprint of every call against the model.  Non-trivial: >= 3 executed calls including a "
